@@ -2,7 +2,11 @@
 
 package ast
 
-import "github.com/smarthome-go/homescript/v3/homescript/lexer"
+import (
+	"math"
+
+	"github.com/smarthome-go/homescript/v3/homescript/lexer"
+)
 
 // Specification vocabulary and contracts checked by /verif/hvc (build tag
 // verif only). The token -> operator tables below are transcribed from the
@@ -233,6 +237,9 @@ func VIntOp(op InfixOperator, l int64, r int64) int64 {
 		return l & r
 	case BitXorInfixOperator:
 		return l ^ r
+	case PowerInfixOperator:
+		// integer power is defined through floating point (both backends)
+		return int64(math.Pow(float64(l), float64(r)))
 	}
 	return 0
 }
@@ -259,6 +266,8 @@ func VFloatOp(op InfixOperator, l float64, r float64) float64 {
 		return l * r
 	case DivideInfixOperator:
 		return l / r
+	case PowerInfixOperator:
+		return math.Pow(l, r)
 	}
 	return 0
 }
@@ -312,16 +321,15 @@ func VIsCompare(op InfixOperator) bool {
 	return op == LessThanInfixOperator || op == GreaterThanInfixOperator || op == LessThanEqualInfixOperator || op == GreaterThanEqualInfixOperator
 }
 
-// VIsIntArith: operators with an int result on int operands (power excluded:
-// it is computed through floating point by both backends).
+// VIsIntArith: operators with an int result on int operands.
 func VIsIntArith(op InfixOperator) bool {
 	switch op {
-	case PlusInfixOperator, MinusInfixOperator, MultiplyInfixOperator, DivideInfixOperator, ModuloInfixOperator, ShiftLeftInfixOperator, ShiftRightInfixOperator, BitOrInfixOperator, BitAndInfixOperator, BitXorInfixOperator:
+	case PlusInfixOperator, MinusInfixOperator, MultiplyInfixOperator, DivideInfixOperator, ModuloInfixOperator, PowerInfixOperator, ShiftLeftInfixOperator, ShiftRightInfixOperator, BitOrInfixOperator, BitAndInfixOperator, BitXorInfixOperator:
 		return true
 	}
 	return false
 }
 
 func VIsFloatArith(op InfixOperator) bool {
-	return op == PlusInfixOperator || op == MinusInfixOperator || op == MultiplyInfixOperator || op == DivideInfixOperator
+	return op == PlusInfixOperator || op == MinusInfixOperator || op == MultiplyInfixOperator || op == DivideInfixOperator || op == PowerInfixOperator
 }
